@@ -30,7 +30,8 @@ class Driver:
         return p.returncode == 0
 
     def start(self):
-        self.proc = subprocess.Popen([BIN], stdin=subprocess.PIPE, stdout=subprocess.PIPE, text=True, bufsize=1)
+        # binary pipes: a '\r' inside an answer (error messages quote CRLF sources) must not be taken for a line end
+        self.proc = subprocess.Popen([BIN], stdin=subprocess.PIPE, stdout=subprocess.PIPE, bufsize=0)
 
     n_calls = 0
     seen = None
@@ -65,7 +66,7 @@ class Driver:
         self.n_calls += 1
         if self.proc is None or self.proc.poll() is not None:
             self.start()
-        self.proc.stdin.write("\t".join([op] + list(args)) + "\n")
+        self.proc.stdin.write(("\t".join([op] + list(args)) + "\n").encode("utf-8"))
         self.proc.stdin.flush()
         line = self.proc.stdout.readline()
         if not line:
@@ -73,7 +74,7 @@ class Driver:
             rc = self.proc.wait()
             self.proc = None
             return "died rc=%s" % rc
-        return line.rstrip("\n")
+        return line.decode("utf-8", "replace").rstrip("\n").replace("\r", " ")
 
     def close(self):
         if self.proc:
